@@ -137,7 +137,7 @@ type c11Case struct {
 }
 
 func TestVerifC11(t *testing.T) {
-	rep := newVerifReport("C11", "codec: every prefix length 0..32 x base addresses (0.0.0.0, 127.0.0.0, 10.x, 255.255.255.x, random) x peers (network, broadcast, one below, one above, far, random) with membership decided by uint32 arithmetic; netblocks read back == minted; multi-block lists; IPv6 and IPv4-mapped peers; unmasked and IPv6 blocks; structurally corrupted extensions (bit lengths 0..255, empty/unknown families, garbage) must be rejected without panic and never accept an outside peer; class = (prefix length, peer position, verdict)")
+	rep := newVerifReport("C11", "codec: every prefix length 0..32 x base addresses (0.0.0.0, 127.0.0.0, 10.x, 255.255.255.x, random) x peers (network, broadcast, one below, one above, far, random) with membership decided by uint32 arithmetic; netblocks read back == minted; multi-block lists; IPv6 and IPv4-mapped peers; unmasked and IPv6 blocks; structurally corrupted extensions (bit lengths 0..600 and around 2^10, 2^11, 2^12, 2^16, empty/unknown families, garbage) must be rejected without panic and never accept an outside peer; class = (prefix length, peer position, verdict)")
 	defer rep.Finish()
 	rng := verifRand("c11codec")
 	ca := c11NewCA(t)
@@ -326,7 +326,18 @@ func TestVerifC11(t *testing.T) {
 			exts = append(exts, b)
 		}
 	}
-	for bl := 0; bl <= 255; bl++ {
+	// every bit length up to 600 and the neighbourhoods of 2^16 and 2^10..2^12: a length that is only right modulo the
+	// width of some narrower integer (256 + 16, 65536 + 8, ...) is as malformed as 33
+	bitLengths := []int{}
+	for bl := 0; bl <= 600; bl++ {
+		bitLengths = append(bitLengths, bl)
+	}
+	for _, base := range []int{1024, 2048, 4096, 65536} {
+		for _, d := range []int{0, 1, 8, 16, 24, 31, 32} {
+			bitLengths = append(bitLengths, base+d)
+		}
+	}
+	for _, bl := range bitLengths {
 		nbytes := (bl + 7) / 8
 		by := make([]byte, nbytes)
 		for i := range by {
